@@ -18,7 +18,12 @@ def lastKey (evs : List Ev) : KeyAcc := scanKey none evs
     requests that were all answered "continue" and one final request `r` which, in the state `st`
     those requests led to, satisfies its method:
     * `none` only with NoClientAuth, before any partial success, and NoClientAuthCallback (if set) accepted;
-    * `password` / `keyboard-interactive` only if that callback of the callback set in force accepted;
+    * `password` / `keyboard-interactive` only if that callback of the callback set in force accepted
+      (keyboard-interactive: after every Challenge call was answered by a well-formed INFO_RESPONSE
+      with the right number of answers);
+    * `gssapi-with-mic` only if it is configured in the set in force, Kerberos V5 was offered, the
+      AcceptSecContext exchange ran to completion (token after every "continue", MIC at the end),
+      the MIC verified (oracle) and AllowLogin accepted;
     * `publickey` only if the request is not a query, the key parses, the algorithm's underlying
       algorithm and the signature format are in PublicKeyAuthAlgorithms, the algorithm belongs to the
       key's type, algorithm and signature format are compatible, the signature verifies (oracle) and
@@ -73,23 +78,24 @@ theorem pk_success_is_last_callback (cfg : Cfg) (reads : List Read) (evs : List 
 theorem perms_final (cfg : Cfg) (reads : List Read) (evs : List Ev) (p : Nat)
     (h : run cfg reads = (evs, .ok p)) :
     ∃ (pre : List Req) (r : Req) (post : List Read), reads = pre.map Read.req ++ Read.req r :: post ∧
-      (r.method = "password" ∨ r.method = "keyboard-interactive" ∨
+      (r.method = "password" ∨ r.method = "keyboard-interactive" ∨ r.method = "gssapi-with-mic" ∨
         (r.method = "none" ∧ cfg.noClientAuthCb = true) → r.cb = .accept p) ∧
       (r.method = "none" ∧ cfg.noClientAuthCb = false → p = 0) := by
   obtain ⟨pre, r, post, st, e1, e2, h1, _, _, _, _, _, hs⟩ := auth_sound cfg reads evs p h
   refine ⟨pre, r, post, h1, ?_, ?_⟩
   · intro hm
     unfold Satisfied at hs
-    rcases hs with ⟨m, _, _, hh⟩ | ⟨m, _, _, hh⟩ | ⟨m, _, hh⟩ | ⟨m, _⟩
+    rcases hs with ⟨m, _, _, hh⟩ | ⟨m, _, _, hh⟩ | ⟨m, _, _, hh⟩ | ⟨m, _, _, _, _, hh⟩ | ⟨m, _⟩
     · rcases hh with ⟨_, hh⟩ | ⟨hf, _⟩
       · exact hh
-      · rcases hm with hm | hm | ⟨_, hm⟩ <;> simp_all
+      · rcases hm with hm | hm | hm | ⟨_, hm⟩ <;> simp_all
     · exact hh
     · exact hh
-    · rcases hm with hm | hm | ⟨hm, _⟩ <;> simp_all
+    · exact hh
+    · rcases hm with hm | hm | hm | ⟨hm, _⟩ <;> simp_all
   · intro ⟨hm, hcb⟩
     unfold Satisfied at hs
-    rcases hs with ⟨m, _, _, hh⟩ | ⟨m, _⟩ | ⟨m, _⟩ | ⟨m, _⟩
+    rcases hs with ⟨m, _, _, hh⟩ | ⟨m, _⟩ | ⟨m, _⟩ | ⟨m, _⟩ | ⟨m, _⟩
     · rcases hh with ⟨hh, _⟩ | ⟨_, hh⟩
       · simp_all
       · exact hh
@@ -132,7 +138,7 @@ theorem no_success_on_empty (cfg : Cfg) : (run cfg []).2 = .authErr := by
 /-! ## non-vacuity: concrete histories that do succeed, one per method -/
 
 def cfgDemo : Cfg :=
-  { maxAuthTries := 0, noClientAuth := false, noClientAuthCb := false, cbs := ⟨true, true, true⟩,
+  { maxAuthTries := 0, noClientAuth := false, noClientAuthCb := false, cbs := ⟨true, true, true, false⟩,
     verifiedCb := false, bannerCb := none, pkAlgos := [], addr := .tcp,
     perms := [(1, ⟨none, false⟩), (2, ⟨some [.ipNe, .cidrIn], false⟩), (3, ⟨some [.bad, .ipEq], false⟩)] }
 
@@ -157,11 +163,41 @@ example : (run cfgDemo [.req { user := "a", service := "ssh-connection", method 
 
 /-- password → partial success naming only keyboard-interactive → keyboard-interactive accepted -/
 example : run cfgDemo
-    [.req { user := "a", service := "ssh-connection", method := "password", cb := .partialOk ⟨false, false, true⟩ 0 },
+    [.req { user := "a", service := "ssh-connection", method := "password", cb := .partialOk ⟨false, false, true, false⟩ 0 },
      .req { user := "a", service := "ssh-connection", method := "keyboard-interactive", cb := .accept 1 }] =
-    ([.cbPw 0 "a" "" (.partialOk ⟨false, false, true⟩ 0), .log "password" .partialOk,
+    ([.cbPw 0 "a" "" (.partialOk ⟨false, false, true, false⟩ 0), .log "password" .partialOk,
       .sendFailure ["keyboard-interactive"] true, .cbKbd 1 "a" (.accept 1), .log "keyboard-interactive" .ok,
       .sendSuccess], .ok 1) := by
+  decide
+
+/-- keyboard-interactive with two Challenge rounds (2 questions, then 0), both answered -/
+example : run cfgDemo
+    [.req { user := "a", service := "ssh-connection", method := "keyboard-interactive", kbdRounds := [2, 0],
+            follow := [.infoResp 2, .infoResp 0], cb := .accept 1 }] =
+    ([.cbKbd 0 "a" (.accept 1), .sendInfoReq 2, .sendInfoReq 0, .log "keyboard-interactive" .ok, .sendSuccess], .ok 1) := by
+  decide
+
+/-- … a wrong number of answers is an authentication failure although the callback would accept -/
+example : (run cfgDemo
+    [.req { user := "a", service := "ssh-connection", method := "keyboard-interactive", kbdRounds := [2],
+            follow := [.infoResp 1], cb := .accept 1 }]).2 = .authErr := by
+  decide
+
+/-- gssapi-with-mic: two AcceptSecContext calls (the first continues and emits a token), MIC, AllowLogin -/
+example : run { cfgDemo with cbs := ⟨false, false, false, true⟩ }
+    [.req { user := "a", service := "ssh-connection", method := "gssapi-with-mic",
+            gss := ⟨.krb, [⟨false, true, true⟩, ⟨false, false, false⟩], true⟩,
+            follow := [.gssToken, .gssToken, .gssMic], cb := .accept 1 }] =
+    ([.sendGssResponse, .gssAccept, .sendGssToken, .gssAccept, .gssVerifyMic, .cbGssAllow 0 "a" (.accept 1), .gssDelete,
+      .log "gssapi-with-mic" .ok, .sendSuccess], .ok 1) := by
+  decide
+
+/-- … with a MIC that does not verify AllowLogin is never consulted -/
+example : run { cfgDemo with cbs := ⟨false, false, false, true⟩ }
+    [.req { user := "a", service := "ssh-connection", method := "gssapi-with-mic",
+            gss := ⟨.krb, [⟨false, false, false⟩], false⟩, follow := [.gssToken, .gssMic], cb := .accept 1 }] =
+    ([.sendGssResponse, .gssAccept, .gssVerifyMic, .gssDelete, .log "gssapi-with-mic" .fail,
+      .sendFailure ["gssapi-with-mic"] false], .authErr) := by
   decide
 
 example : (run { cfgDemo with noClientAuth := true }
